@@ -13,12 +13,13 @@
 (*   one node evaluation                            NodeStep(v)            *)
 (*   time.Now()                                     Tick                   *)
 (*                                                                         *)
-(* The module has two layers.  The PURE layer (tables, FoldCompileOpt,     *)
-(* FoldEvalOpt, NodeItem, CompileDen, EvalDen) is the reference semantics  *)
-(* shared by the machine, by the record judges (C04_Judge) and by the      *)
-(* trace specification (C04_Trace).  The MACHINE layer is the interleaving *)
-(* model: c ranges over Compile slots, v over goroutines each making one   *)
-(* Evaluate call at a time on an expression of the shared store `exprs`.   *)
+(* The specification has two layers.  The PURE layer (module               *)
+(* FPRegistryCore: tables, FoldCompileOpt, FoldEvalOpt, NodeItem,          *)
+(* CompileDen, EvalDen) is the reference semantics shared by this machine, *)
+(* by the record judge (C04_Judge) and by the trace specification          *)
+(* (C04_Trace).  This module is the MACHINE layer, the interleaving model: *)
+(* c ranges over Compile slots, v over goroutines each making one Evaluate *)
+(* call at a time on an expression of the shared store `exprs`.            *)
 (*                                                                         *)
 (* Mutant selects a deliberately wrong implementation design; each one     *)
 (* must violate at least one of the properties at the end of the module.   *)
